@@ -651,6 +651,57 @@ def g_task(task):
     return res
 
 
+
+# ----------------------------------------------------------------------------- part P
+# Flows that react to each other's outgoing events: every single run_to_completion is short, but the event-processing
+# API feeds emitted events back as input events - one call must still return within its cap (runtime.max_events) and
+# the runtime must go on serving later events.
+PINGPONG = {
+    "two-flows": ("flow ping\n  match StartUtteranceBotAction(script=\"pong\")\n  send StartUtteranceBotAction(script=\"ping\")\n\n"
+                  "flow pong\n  match StartUtteranceBotAction(script=\"ping\")\n  send StartUtteranceBotAction(script=\"pong\")\n\n"
+                  "flow main\n  activate ping\n  activate pong\n  activate witness\n  match Go()\n  send StartUtteranceBotAction(script=\"ping\")\n  match Never()\n"),
+    "self-echo": ("flow echo\n  match TickAction.Start()\n  send StartTickAction()\n\n"
+                  "flow main\n  activate echo\n  activate witness\n  match Go()\n  send StartTickAction()\n  match Never()\n"),
+    "three-cycle": ("flow a\n  match StartCAction()\n  send StartAAction()\n\nflow b\n  match StartAAction()\n  send StartBAction()\n\nflow c\n  match StartBAction()\n  send StartCAction()\n\n"
+                    "flow main\n  activate a\n  activate b\n  activate c\n  activate witness\n  match Go()\n  send StartAAction()\n  match Never()\n"),
+}
+_P_WITNESS = '@loop("w")\nflow witness\n  match Later()\n  send StillAlive()\n'
+
+
+def pingpong_task(task):
+    name, cap = task
+    src = PINGPONG[name] + "\n" + _P_WITNESS
+    res = {"programs": 1, "calls": 0, "events_returned": 0, "viol": []}
+    info = {"engine": "C10-F", "source": src, "history": ["Go", "Later"], "family": "ping-pong:" + name, "max_events": cap}
+    try:
+        rt = _runtime(src)
+    except Exception as e:
+        res["viol"].append((f"program-rejected:ping-pong:{name}", repr(e), info))
+        return res
+    if cap is not None:
+        rt.max_events = cap
+    bound = rt.max_events
+    loop = asyncio.new_event_loop()
+    try:
+        signal.signal(signal.SIGALRM, _alarm)
+        signal.alarm(60)
+        outs, _state = run_history(rt, [{"type": "Go"}, {"type": "Later"}], loop, 200000)
+        res["calls"] = 3
+        res["events_returned"] = sum(len(o) for o in outs)
+        if len(outs[1]) > bound + 5:
+            res["viol"].append((f"event-cap-exceeded:ping-pong:{name}", f"one process_events call returned {len(outs[1])} events, cap max_events={bound}", info))
+        if "StillAlive" not in outs[2]:
+            res["viol"].append((f"bystander-disturbed:ping-pong:{name}", f"after the capped call the witness did not react to the next event: {outs[2][:5]}", info))
+    except (seams.StepBudgetExceeded, WallClockExceeded) as e:
+        res["viol"].append((f"non-termination:ping-pong:{name}", f"process_events did not return within 60 s / the step budget (max_events={bound}): {type(e).__name__}", info))
+    except Exception as e:
+        res["viol"].append((f"exception-escapes-process_events:ping-pong:{name}", f"{type(e).__name__}: {e}", info))
+    finally:
+        signal.alarm(0)
+        loop.close()
+    return res
+
+
 ACTIVE_BODIES = [["abort"], ["$x = 1/0"], ["start ActAAction()", "abort"], ["start ActAAction()", "$x = 1/0"], ["send Tick()", "$x = 1/0"],
                  ["send Tick()"], ["match E1()", "abort"], ['priority "x"'], ["start ActAAction()", "match $nope.Finished()"]]
 
@@ -747,6 +798,14 @@ def run(rep, tier):
     for k, v in gs.items():
         rep.set("two_flow_fault_" + k, v)
     agg["bystander_reactions"] += gs["bystander_reactions"]
+    pp = {"programs": 0, "calls": 0, "events_returned": 0}
+    for r in par.pmap(pingpong_task, [(n, c) for n in PINGPONG for c in (None, 40)]):
+        for k in pp:
+            pp[k] += r[k]
+        for sig, what, info in r["viol"]:
+            rep.violation(sig, what, info)
+    for k, v in pp.items():
+        rep.set("ping_pong_" + k, v)
     act = {"programs": 0, "histories": 0}
     for r in par.pmap(active_task, ACTIVE_BODIES):
         act["programs"] += r["programs"]; act["histories"] += r["histories"]
